@@ -159,6 +159,10 @@ pub struct AsyncArrowWriter<W> {
 
     /// Async writer provided by caller
     async_writer: W,
+
+    /// Set once a write to `async_writer` has failed: the bytes of that write are lost,
+    /// so the file can no longer be completed
+    failed: bool,
 }
 
 impl<W: AsyncFileWriter> AsyncArrowWriter<W> {
@@ -183,6 +187,7 @@ impl<W: AsyncFileWriter> AsyncArrowWriter<W> {
         Ok(Self {
             sync_writer,
             async_writer: writer,
+            failed: false,
         })
     }
 
@@ -284,12 +289,18 @@ impl<W: AsyncFileWriter> AsyncArrowWriter<W> {
     /// This method will take the inner buffer from the `sync_writer` and write it into the
     /// async writer. After the write, the inner buffer will be empty.
     async fn do_write(&mut self) -> Result<()> {
+        if self.failed {
+            return Err(ParquetError::General(
+                "AsyncArrowWriter cannot continue: a previous write to the underlying writer failed"
+                    .to_string(),
+            ));
+        }
         let buffer = mem::take(self.sync_writer.inner_mut());
 
-        self.async_writer
-            .write(Bytes::from(buffer))
-            .await
-            .map_err(|e| ParquetError::External(Box::new(e)))?;
+        if let Err(e) = self.async_writer.write(Bytes::from(buffer)).await {
+            self.failed = true;
+            return Err(ParquetError::External(Box::new(e)));
+        }
 
         Ok(())
     }
